@@ -132,6 +132,7 @@ type Enc struct {
 	curFrameForSite *Frame
 	dynImpl         map[string]bool
 	recGhost        map[string]bool
+	bseqSeen        map[string]bool
 }
 
 func newEnc(P *Program, db *SpecDB, ti *TypeInfo) *Enc {
